@@ -187,7 +187,8 @@ class World:
             if kind == 'done':
                 if var % 4 == 1:
                     # a task that returns its whole (previous) entry, clocks included
-                    upd[self.name].update(start_clock=0.0, end_clock=0.0)
+                    upd[self.name].update(start_clock=0.0, end_clock=0.0,
+                                          status=[TaskStatus.FAILED, TaskStatus.PENDING, TaskStatus.SKIPPED][var // 4 % 3])
                 shape = (var // 4) % 6
                 if shape == 2:
                     # a read-only mapping is a mapping (what PythonTask hands out as env)
@@ -208,6 +209,8 @@ class World:
             if kind == 'intstatus':
                 return upd, 3
             if kind == 'failupd':
+                if var % 3 == 1:
+                    upd[self.name]['status'] = TaskStatus.DONE      # a stale status inside the update
                 return upd, TaskStatus.FAILED
             if kind == 'failnone':
                 return None, TaskStatus.FAILED
